@@ -655,8 +655,10 @@ impl Analyzable for NegateOp {
 
 impl Analyzable for RecordConstructorField {
     fn analyze(&mut self, parent: Option<Rc<Scope>>) -> AnalyzeReport {
+        // the name is looked up among the fields of the case (the scope handed down by the
+        // constructor), the value is an expression of the scope the constructor sits in
         let name = self.name.analyze(parent.clone());
-        let value = self.value.analyze(parent.clone());
+        let value = self.value.analyze(parent.and_then(|x| x.parent.clone()));
 
         name + value
     }
@@ -674,7 +676,7 @@ impl Analyzable for VariantCaseConstructor {
             self.name.analyze(parent.clone())
         };
 
-        let mut scope = Scope::new(parent);
+        let mut scope = Scope::new(parent.clone());
 
         let case = match &self.name.symbol {
             Some(Symbol::VariantCase(x)) => x,
@@ -702,7 +704,7 @@ impl Analyzable for VariantCaseConstructor {
 
         let fields = self.fields.analyze(self.scope.clone());
 
-        let spread = self.spread.analyze(self.scope.clone());
+        let spread = self.spread.analyze(parent);
 
         name + fields + spread + missing
     }
